@@ -37,12 +37,18 @@ def read2dToJson (r : Read2d Rat) : Except String Json := do
 
 /-- one 2-D array / kernel through both routes.
     {"mask","values"(slim),"scales":[sy,sx],"flip"} →
-    {"hdu": written HDU, "from_hdu": read-back, "from_file": read-back via file (user scales), "file_headers"} -/
+    {"hdu": written HDU, "from_hdu": read-back, "from_file": read-back via file (user scales), "file_headers"}
+    optional (history cases, round 4): "flip_read" = the flag in force when the HDU / file is READ (default:
+    the flag it was written under), "read_scales" = the pixel scales handed to `from_fits` (default: "scales") -/
 def array2d : Op := fun j => do
   let m ← getMask (← field j "mask")
   let vals ← getRats (← field j "values")
   let sc ← getPair (← field j "scales")
   let flip ← getBool (← field j "flip")
+  let flipR ← getBool (fieldD j "flip_read" (Json.bool flip))
+  let scR ← match (j.getObjVal? "read_scales").toOption with
+    | some sj => getPair sj
+    | none => pure sc
   if vals.length ≠ Impl.totalPixels m then throw "shape_mismatch"
   -- optional: the array is held in native form with these (arbitrary under the mask) values
   let hdu ← match (j.getObjVal? "stored_native").toOption with
@@ -52,11 +58,11 @@ def array2d : Op := fun j => do
       | some h => pure h
       | none => throw "shape_mismatch"
     | none => pure (array2dHdu flip m vals sc 0)
-  let r1 ← match array2dFromHdu flip hdu 0 with
+  let r1 ← match array2dFromHdu flipR hdu 0 with
     | some r => read2dToJson r
     | none => throw "read_failed"
   let file := fileOf hdu
-  let r2 ← match array2dFromFits flip file 0 sc 0 with
+  let r2 ← match array2dFromFits flipR file 0 scR 0 with
     | some r => read2dToJson r
     | none => throw "read_failed"
   let hs ← match headersFromFits file 0 with
@@ -70,11 +76,12 @@ def mask2d : Op := fun j => do
   let sc ← getPair (← field j "scales")
   let flip ← getBool (← field j "flip")
   let invert ← getBool (fieldD j "invert" (Json.bool false))
+  let flipR ← getBool (fieldD j "flip_read" (Json.bool flip))
   let hdu := mask2dHdu flip m sc 0 1
-  let r1 ← match mask2dFromHdu flip hdu 0 with
+  let r1 ← match mask2dFromHdu flipR hdu 0 with
     | some (mm, s) => pure (obj [("mask", maskToJson mm), ("scales", ratsToJson [s.1, s.2])])
     | none => throw "read_failed"
-  let r2 ← match mask2dFromFits flip (fileOf hdu) 0 invert 0 with
+  let r2 ← match mask2dFromFits flipR (fileOf hdu) 0 invert 0 with
     | some mm => pure (maskToJson mm)
     | none => throw "read_failed"
   pure (obj [("hdu", hduToJson hdu), ("from_hdu", r1), ("from_file", r2)])
